@@ -29,6 +29,7 @@ type BuildRec struct {
 	Fresh   *BuildRec
 	Aborted string
 	Faulted bool
+	CancelIssued bool
 }
 
 type HistCfg struct {
@@ -40,6 +41,10 @@ type HistCfg struct {
 	OptChange   func(step int, o *OptModel) bool // C18: change one option => new context
 	Plan        func(step int) *verifsim.FaultPlan
 	EditsPerStep int
+	UniqueKey   []byte
+	Cancel      func(step int) int                       // >= 0: a second client cancels after that many of its own scheduling points
+	ExtraEdit   func(step int, p *Project, d *verifsim.Disk) string // scenario-specific edit applied after the generic ones
+	NoSnapshots bool
 }
 
 var clockSteps = []time.Duration{0, time.Millisecond, 500 * time.Millisecond, 1500 * time.Millisecond, 3500 * time.Millisecond, 10 * time.Second}
@@ -53,7 +58,7 @@ func snapshotFiles(d *verifsim.Disk) map[string]string {
 func RunHistory(rc *RunCtx, p *Project, o *OptModel, d *verifsim.Disk, cfg HistCfg) ([]*BuildRec, *verifsim.Sim) {
 	g := rc.G
 	var recs []*BuildRec
-	so := SimOpts{Disk: d, Canonical: cfg.Canonical}
+	so := SimOpts{Disk: d, Canonical: cfg.Canonical, UniqueKey: cfg.UniqueKey}
 	s := rc.Sim(so, func() {
 		opts := o.Build(p)
 		ctx, cerr := api.Context(opts)
@@ -68,6 +73,11 @@ func RunHistory(rc *RunCtx, p *Project, o *OptModel, d *verifsim.Disk, cfg HistC
 				n := 1 + g.n(cfg.EditsPerStep)
 				for e := 0; e < n; e++ {
 					rec.Edits = append(rec.Edits, ApplyEdit(g, p, d, cfg.InPlace))
+				}
+				if cfg.ExtraEdit != nil {
+					if e := cfg.ExtraEdit(step, p, d); e != "" {
+						rec.Edits = append(rec.Edits, e)
+					}
 				}
 				if adv := clockSteps[g.n(len(clockSteps))]; adv > 0 {
 					verifsim.Sleep(adv)
@@ -104,12 +114,28 @@ func RunHistory(rc *RunCtx, p *Project, o *OptModel, d *verifsim.Disk, cfg HistC
 					rec.Faulted = true
 				}
 			}
+			cancelAfter := -1
+			if cfg.Cancel != nil {
+				cancelAfter = cfg.Cancel(step)
+			}
 			if cfg.Watch {
 				var ok bool
 				rec.Res, dirtyFn, ok = api.VerifWatchRebuild(ctx)
 				if !ok {
 					panic("VerifWatchRebuild: not an internal context")
 				}
+			} else if cancelAfter >= 0 {
+				rec.CancelIssued = true
+				theCtx := ctx
+				parallel(
+					func() { rec.Res = theCtx.Rebuild() },
+					func() {
+						for i := 0; i < cancelAfter; i++ {
+							verifsim.Yield("harness", "spin")
+						}
+						theCtx.Cancel()
+					},
+				)
 			} else {
 				rec.Res = ctx.Rebuild()
 			}
